@@ -291,6 +291,22 @@ def construct_service(pydsdl, u, built, i, j, port=None):
     return pydsdl.ServiceType(request=req, response=rsp, fixed_port_id=port)
 
 
+def with_service_sections(pydsdl, u, objs, seed):
+    """
+    Returns a copy of objs in which two entries are replaced by the request / response sections of a service built from the
+    same descriptions: a section is a composite like any other and must behave exactly like the stand-alone definition.
+    """
+    import random
+
+    r2 = random.Random(seed ^ 0x5EC)
+    i, j = r2.randrange(len(u)), r2.randrange(len(u))
+    svc = construct_service(pydsdl, u, objs, i, j)
+    out = list(objs)
+    out[j] = svc.response_type
+    out[i] = svc.request_type
+    return out
+
+
 def universe_sig(u):
     return repr(u)
 
